@@ -288,6 +288,7 @@ func (r *AuthnRequest) Redirect(relayState string, sp *ServiceProvider) (*url.UR
 	compressedWriter, _ := flate.NewWriter(base64Writer, 9)
 	doc := etree.NewDocument()
 	doc.SetRoot(r.Element())
+	doc.WriteSettings = xmlWriteSettings
 	if _, err := doc.WriteTo(compressedWriter); err != nil {
 		return nil, err
 	}
@@ -655,6 +656,7 @@ func (sp *ServiceProvider) MakePostAuthenticationRequest(relayState string) ([]b
 func (r *AuthnRequest) Post(relayState string) []byte {
 	doc := etree.NewDocument()
 	doc.SetRoot(r.Element())
+	doc.WriteSettings = xmlWriteSettings
 	reqBuf, err := doc.WriteToBytes()
 	if err != nil {
 		panic(err)
@@ -1415,6 +1417,7 @@ func (r *LogoutRequest) Redirect(relayState string) *url.URL {
 	w2, _ := flate.NewWriter(w1, 9)
 	doc := etree.NewDocument()
 	doc.SetRoot(r.Element())
+	doc.WriteSettings = xmlWriteSettings
 	if _, err := doc.WriteTo(w2); err != nil {
 		panic(err)
 	}
@@ -1452,6 +1455,7 @@ func (sp *ServiceProvider) MakePostLogoutRequest(nameID, relayState string) ([]b
 func (r *LogoutRequest) Post(relayState string) []byte {
 	doc := etree.NewDocument()
 	doc.SetRoot(r.Element())
+	doc.WriteSettings = xmlWriteSettings
 	reqBuf, err := doc.WriteToBytes()
 	if err != nil {
 		panic(err)
@@ -1529,6 +1533,7 @@ func (r *LogoutResponse) Redirect(relayState string) *url.URL {
 	w2, _ := flate.NewWriter(w1, 9)
 	doc := etree.NewDocument()
 	doc.SetRoot(r.Element())
+	doc.WriteSettings = xmlWriteSettings
 	if _, err := doc.WriteTo(w2); err != nil {
 		panic(err)
 	}
@@ -1566,6 +1571,7 @@ func (sp *ServiceProvider) MakePostLogoutResponse(logoutRequestID, relayState st
 func (r *LogoutResponse) Post(relayState string) []byte {
 	doc := etree.NewDocument()
 	doc.SetRoot(r.Element())
+	doc.WriteSettings = xmlWriteSettings
 	reqBuf, err := doc.WriteToBytes()
 	if err != nil {
 		panic(err)
@@ -1836,6 +1842,7 @@ func elementToBytes(el *etree.Element) ([]byte, error) {
 
 	doc := etree.NewDocument()
 	doc.SetRoot(el.Copy())
+	doc.WriteSettings = xmlWriteSettings
 	for space, uri := range namespaces {
 		doc.Root().CreateAttr("xmlns:"+space, uri)
 	}
